@@ -4,7 +4,9 @@ package c11
 // automaton's boundary: the packets it handed to the send callback, the packets
 // and administrative events the harness delivered, IsOpened()/GetState() after
 // each event, and virtual time. The verif hooks (restart counter, timer field)
-// are used only to fingerprint states and to name witness classes.
+// are used to fingerprint states, to name witness classes and, in the
+// "non-matching reply is silently discarded" clause only, to see that a discarded
+// packet neither reset the restart counter nor touched the restart timer.
 
 import (
 	"bytes"
@@ -16,6 +18,8 @@ import (
 	"strings"
 	"testing/synctest"
 	"time"
+
+	"github.com/codelaboratoryltd/bng/pkg/pppoe"
 )
 
 type monitor struct {
@@ -28,6 +32,95 @@ type monitor struct {
 	peerID     byte
 	peerData   []byte
 	weAcked    bool // the peer's latest Configure-Request was answered with a Configure-Ack
+
+	// identifiers the automaton was observed to use for packets it originated (send callback)
+	reqIDs     []byte    // identifiers of all its Configure-Requests, oldest first
+	hasNC      bool      // it originated a packet that is not a Configure-Request (Terminate-Request, Code-Reject, Protocol-Reject, Echo-Request)
+	ncID       byte      // identifier of the latest such packet
+	ncCode     byte      // its code
+	ncAfterReq bool      // it was sent after the latest Configure-Request
+	used       [256]bool // every identifier it used for an originated packet
+	hasOrig    bool
+	lastOrig   byte // identifier of the latest originated packet of any kind
+}
+
+// originated: codes for which the sender chooses the identifier (RFC 1661 section 5); replies echo the peer's.
+func originated(code byte) bool {
+	switch code {
+	case cConfReq, cTermReq, cCodeRej, cProtRej, cEchoReq, cDiscard:
+		return true
+	}
+	return false
+}
+
+// olderReqIDs: identifiers of earlier Configure-Requests that differ from the latest one's.
+func (m *monitor) olderReqIDs() []byte {
+	var out []byte
+	if len(m.reqIDs) < 2 {
+		return nil
+	}
+	for _, id := range m.reqIDs[:len(m.reqIDs)-1] {
+		if id != m.ourID {
+			out = append(out, id)
+		}
+	}
+	return out
+}
+
+// hasID: an identifier of the class exists in the present situation (independent of any random choice).
+func (m *monitor) hasID(class string) bool {
+	switch class {
+	case "cur":
+		return m.hasOur
+	case "old":
+		return len(m.olderReqIDs()) > 0
+	case "nc":
+		return m.hasNC && !(m.hasOur && m.ncID == m.ourID)
+	case "peer":
+		return m.hasPeer && !(m.hasOur && m.peerID == m.ourID)
+	case "new":
+		for id := 0; id < 256; id++ {
+			if !m.used[id] {
+				return true
+			}
+		}
+	}
+	return false
+}
+
+// idFor picks the identifier of a peer reply of the given class.
+func (m *monitor) idFor(class string, r *rand.Rand) (byte, bool) {
+	if !m.hasID(class) {
+		return 0, false
+	}
+	switch class {
+	case "cur", "alt":
+		return m.ourID, m.hasOur
+	case "old":
+		ids := m.olderReqIDs()
+		if r.IntN(2) == 0 {
+			return ids[len(ids)-1], true // the request just before the latest (a reply that crossed a retransmission)
+		}
+		return ids[r.IntN(len(ids))], true
+	case "nc":
+		return m.ncID, true
+	case "peer":
+		return m.peerID, true
+	case "new":
+		// never used by the automaton: preferably the one it will use next
+		cands := []byte{m.lastOrig + 1, m.lastOrig + 1, m.lastOrig + 2, m.ourID + 0x40, 0, 0xff, byte(r.IntN(256))}
+		for i, n := r.IntN(len(cands)), 0; n < len(cands); i, n = (i+1)%len(cands), n+1 {
+			if !m.used[cands[i]] {
+				return cands[i], true
+			}
+		}
+		for id := 0; id < 256; id++ {
+			if !m.used[id] {
+				return byte(id), true
+			}
+		}
+	}
+	return 0, false
 }
 
 func (m *monitor) ok() bool { return m.peerAcked && m.weAcked }
@@ -36,9 +129,18 @@ func (m *monitor) onSent(p pkt, stBefore string) {
 	if p.Bad {
 		return
 	}
+	if originated(p.Code) {
+		m.used[p.ID] = true
+		m.hasOrig, m.lastOrig = true, p.ID
+		if p.Code != cConfReq {
+			m.hasNC, m.ncID, m.ncCode, m.ncAfterReq = true, p.ID, p.Code, true
+		}
+	}
 	switch p.Code {
 	case cConfReq:
 		m.hasOur, m.ourID, m.ourData = true, p.ID, p.Data
+		m.reqIDs = append(m.reqIDs, p.ID)
+		m.ncAfterReq = false
 		m.peerAcked = false
 		m.ourByTimer = p.ByTimer
 	case cConfAck:
@@ -84,6 +186,12 @@ type evRec struct {
 	unmetA    bool
 	TimerRan  bool // some packet of this event came from the timer goroutine
 	RaceHeld  bool
+	// peer Configure-Ack/-Nak/-Reject only, all taken from the monitor just before delivery:
+	IDClass    string // cur old nc new alt peer
+	Mismatch   bool   // the automaton has sent a Configure-Request and the reply's identifier differs from the latest one's
+	NoReq      bool   // the automaton never sent a Configure-Request (no identifier can match)
+	NCAfterReq bool   // it originated a non-Configure-Request packet after its latest Configure-Request
+	ReqID      byte   // identifier of its latest Configure-Request
 }
 
 func (r *evRec) String() string {
@@ -139,15 +247,15 @@ func (c *caseCtx) step(e ev, judge bool) *evRec {
 	c.recs = append(c.recs, rec)
 	n0 := len(c.sent)
 	race := rec.Inner != rec.Kind
+	if !c.applicable(e.Kind) {
+		rec.NA = true
+		return rec
+	}
 	var due time.Time
 	if race {
 		// applicable only while a restart timer can be pending: the automata arm it when they
 		// send a Configure-/Terminate-Request (observed in the send callback)
 		due = c.lastReq.Add(c.rt())
-		if !c.hasReq || !due.After(time.Now().Add(time.Nanosecond)) {
-			rec.NA = true
-			return rec
-		}
 		c.sleepWait(time.Until(due) - time.Nanosecond)
 		rec.Pre = append([]pkt(nil), c.sent[n0:]...)
 		for _, p := range rec.Pre {
@@ -183,6 +291,24 @@ func (c *caseCtx) step(e ev, judge bool) *evRec {
 		time.Sleep(c.rt() + 1)
 	case k == "ADV:2rt":
 		time.Sleep(2 * c.rt())
+	case k == "SPR":
+		// the server refuses a frame of a protocol it does not run: Protocol-Reject, which consumes an LCP identifier
+		protos := []uint16{0x8057, 0x002b, 0x8031, 0x80fd, 0x8021}
+		d := make([]byte, r.IntN(9))
+		for i := range d {
+			d[i] = byte(r.IntN(256))
+		}
+		c.lcp.SendProtocolReject(protos[r.IntN(len(protos))], d)
+	case k == "SER":
+		c.lcp.SendEchoRequest()
+	case k == "KA":
+		// one tick of the session keep-alive (keepalive.go) in virtual time: its ticker goroutine calls
+		// SendEchoRequest when LCP is Opened. A fresh SessionKeepAlive per event (Stop is final).
+		ka := pppoe.NewSessionKeepAlive(c.sess, c.lcp, pppoe.KeepAliveConfig{Enabled: true, Interval: time.Millisecond, Timeout: time.Hour, MaxFailures: 1 << 20}, c.lg)
+		ka.Start()
+		time.Sleep(1500 * time.Microsecond)
+		synctest.Wait()
+		ka.Stop()
 	default:
 		p, ok := c.concretise(k, r)
 		if !ok {
@@ -190,6 +316,13 @@ func (c *caseCtx) step(e ev, judge bool) *evRec {
 			return rec
 		}
 		rec.Pkt = p
+		if _, cls := replyClass(k); cls != "" {
+			rec.IDClass = cls
+			rec.NoReq = !c.mon.hasOur
+			rec.Mismatch = c.mon.hasOur && p[1] != c.mon.ourID
+			rec.NCAfterReq = c.mon.hasNC && c.mon.ncAfterReq
+			rec.ReqID = c.mon.ourID
+		}
 		c.mon.onDeliver(p[0], p[1], p[4:])
 		if race {
 			rec.RaceHeld = false
@@ -271,15 +404,25 @@ func (c *caseCtx) judgeEvent(rec *evRec) {
 			}
 			comp := sp.typ + "." + handlerOf(rec.Inner)
 			class := missing + ":" + rec.From + "+" + handlerOf(rec.Inner)
-			if !c.mon.peerAcked && c.mon.hasOur && c.mon.ourByTimer {
+			if rec.IDClass != "" && (rec.Mismatch || rec.NoReq) && rec.From != "Opened" {
+				// the event that opened the automaton is a peer reply whose identifier is not the latest Configure-Request's
+				class = missing + ":opened-by-reply-with-" + idClassName(rec.IDClass) + ":" + rec.From + "+" + handlerOf(rec.Inner)
+			} else if !c.mon.peerAcked && c.mon.hasOur && c.mon.ourByTimer {
 				// the unacknowledged request came from the restart-timer callback, which then did not make the
 				// automaton wait for its acknowledgement
 				comp = sp.typ + ".timeout"
 				class = missing + ":latest-request-sent-by-timer-callback:opened-from-" + rec.From + "-in-" + handlerOf(rec.Inner)
 			}
+			how := ""
+			if rec.Pkt != nil && rec.IDClass != "" {
+				how = fmt.Sprintf("; the delivered %s carried id=%d (%s)", codeName(rec.Pkt[0]), rec.Pkt[1], idClassName(rec.IDClass))
+			}
+			if c.accepted != "" {
+				how += "; earlier the automaton acted on " + c.accepted
+			}
 			c.viol(comp, "opened-implies-mutual-ack", class,
-				fmt.Sprintf("%s reports Opened after %s although %s (our latest Configure-Request id=%d acked by peer: %v; peer's latest Configure-Request acked by us: %v)",
-					sp.proto, rec.Kind, missing, c.mon.ourID, c.mon.peerAcked, c.mon.weAcked))
+				fmt.Sprintf("%s reports Opened after %s although %s (our latest Configure-Request id=%d acked by peer: %v; peer's latest Configure-Request acked by us: %v)%s",
+					sp.proto, rec.Kind, missing, c.mon.ourID, c.mon.peerAcked, c.mon.weAcked, how))
 		}
 	}
 	// (b) renegotiation, terminate and lower-layer-down leave Opened
@@ -287,7 +430,9 @@ func (c *caseCtx) judgeEvent(rec *evRec) {
 	switch k := rec.Inner; {
 	case k == "Down" || k == "Close" || k == "RTR":
 		mustLeave = true
-	case rec.From == "Opened" && (strings.HasPrefix(k, "RCR") || k == "RCNcur" || k == "RCJcur") && rec.Err == "" && rec.Panic == "":
+	case rec.From == "Opened" && (strings.HasPrefix(k, "RCR") || k == "RCNcur" || k == "RCJcur" || k == "RCAcur") && rec.Err == "" && rec.Panic == "":
+		// renegotiation events: RFC 1661 section 4.1 lists RCR, RCA, RCN and RCJ in Opened as this-layer-down plus a
+		// new Configure-Request; RCA/RCN/RCJ are events only when they carry the latest Configure-Request's identifier
 		mustLeave = true
 	}
 	if mustLeave {
@@ -304,6 +449,108 @@ func (c *caseCtx) judgeEvent(rec *evRec) {
 	if rec.Pkt != nil && rec.Err == "" && rec.Panic == "" {
 		c.judgeReplies(rec)
 	}
+	// (d) peer replies whose identifier is not the latest Configure-Request's are silently discarded
+	if rec.IDClass != "" && rec.Pkt != nil {
+		c.judgeDiscard(rec)
+	}
+	// our own identifier-consuming packets (observation)
+	if rec.Pkt == nil || rec.Inner == "UNK" {
+		for _, p := range rec.Sent {
+			if originated(p.Code) && p.Code != cConfReq {
+				run.Count("own_"+codeName(p.Code)+"_after_"+rec.Inner, 1)
+				run.Count("own_nonconfigure_packets_in_"+rec.From, 1)
+			}
+		}
+	}
+}
+
+func idClassName(cls string) string {
+	switch cls {
+	case "cur":
+		return "id-of-latest-configure-request"
+	case "alt":
+		return "id-of-latest-configure-request-options-altered"
+	case "old":
+		return "id-of-older-configure-request"
+	case "nc":
+		return "id-of-latest-non-configure-packet"
+	case "new":
+		return "never-used-id"
+	case "peer":
+		return "id-of-peers-configure-request"
+	}
+	return cls
+}
+
+// judgeDiscard: RFC 1661 section 5.2-5.4: the identifier of a Configure-Ack/-Nak/-Reject must match
+// that of the last transmitted Configure-Request, otherwise the packet is silently discarded. Judged
+// on what is visible at the boundary (state, packets handed to the send callback by the delivering
+// goroutine) plus the restart counter and restart timer accessors. Not judged when the automaton never
+// sent a Configure-Request (matching is undefined; RFC 1661 lets Closed/Stopped answer with Terminate-Ack)
+// and not for timer-vs-packet schedules (the timer's own action overlaps the event).
+func (c *caseCtx) judgeDiscard(rec *evRec) {
+	sp := c.sp
+	rk := "RC" + rec.Inner[2:3]
+	if rec.NoReq {
+		run.Count("reply_before_any_configure_request(not judged)", 1)
+		return
+	}
+	if !rec.Mismatch {
+		run.Count("matching_reply_delivered", 1)
+		run.Count("matching_"+rk+"_in_"+rec.From, 1)
+		if rec.Effective {
+			run.Count("matching_"+rk+"_acted_on_in_"+rec.From, 1)
+		}
+		return
+	}
+	run.Count("mismatched_reply_delivered", 1)
+	run.Count("mismatched_"+rk+"_"+rec.IDClass, 1)
+	run.Count("mismatched_reply_in_"+rec.From, 1)
+	run.Count("mismatched_reply_"+sp.proto, 1)
+	if rec.NCAfterReq {
+		run.Count("mismatched_reply_while_nonconfigure_packet_sent_after_latest_request", 1)
+		if rec.IDClass == "nc" {
+			run.Count("mismatched_reply_with_id_of_that_nonconfigure_packet_in_"+rec.From, 1)
+		}
+	}
+	run.Distinct("mismatched_reply_cases", sp.proto+"|"+rec.From+"|"+rec.Inner)
+	run.Nontrivial("discard|" + sp.name + "|" + rec.From + "|" + rec.Inner + "|" + fmt.Sprint(rec.NCAfterReq))
+	if rec.Inner != rec.Kind {
+		run.Count("mismatched_reply_in_timer_race(discard not judged)", 1)
+		return
+	}
+	if rec.Panic != "" {
+		return
+	}
+	var effects []string
+	if rec.To != rec.From {
+		effects = append(effects, "state-changed:"+rec.From+"->"+rec.To)
+	}
+	for _, p := range rec.Sent {
+		if !p.ByTimer {
+			effects = append(effects, "sent-"+codeName(p.Code))
+		}
+	}
+	if rec.rcA != rec.rcB {
+		effects = append(effects, "restart-counter-changed")
+	}
+	if rec.tsA != rec.tsB {
+		if rec.tsB {
+			effects = append(effects, "restart-timer-stopped")
+		} else {
+			effects = append(effects, "restart-timer-started")
+		}
+	}
+	run.Count("mismatched_reply_discard_judged", 1)
+	if len(effects) == 0 {
+		run.Count("mismatched_reply_ignored", 1)
+		run.Count("mismatched_reply_ignored_in_"+rec.From, 1)
+		return
+	}
+	c.accepted = fmt.Sprintf("a %s with id=%d (%s; latest Configure-Request id=%d) in %s: %s", codeName(rec.Pkt[0]), rec.Pkt[1], idClassName(rec.IDClass), rec.ReqID, rec.From, strings.Join(effects, ","))
+	c.viol(sp.typ+"."+handlerOf(rec.Inner), "non-matching-reply-discarded", idClassName(rec.IDClass)+":"+effects[0]+":in-"+rec.From,
+		fmt.Sprintf("%s acted on a %s whose identifier %d is not that of its latest Configure-Request (%d): %s (%s) in %s",
+			sp.proto, codeName(rec.Pkt[0]), rec.Pkt[1], rec.ReqID, strings.Join(effects, ", "), idClassName(rec.IDClass), rec.From))
 }
 
 // ownVal: the option carries a value the automaton itself used (magic number / interface identifier);
@@ -567,5 +814,14 @@ func (c *caseCtx) fingerprint() string {
 		}
 	}
 	m := &c.mon
-	return fmt.Sprintf("%s|%v%v%v%v%v|%d|%v%v|%s", c.m.St(), m.hasOur, m.peerAcked, m.hasPeer, m.weAcked, m.ourByTimer, rc, c.m.TimerSet(), pend, ip)
+	// identifier situation: an older Configure-Request id exists; a non-Configure-Request id exists
+	// (1 = older than the latest Configure-Request, 2 = sent after it)
+	nc := 0
+	if m.hasID("nc") {
+		nc = 1
+		if m.ncAfterReq {
+			nc = 2
+		}
+	}
+	return fmt.Sprintf("%s|%v%v%v%v%v|%d|%v%v|%s|%v%d", c.m.St(), m.hasOur, m.peerAcked, m.hasPeer, m.weAcked, m.ourByTimer, rc, c.m.TimerSet(), pend, ip, m.hasID("old"), nc)
 }
